@@ -376,6 +376,17 @@ def main():
     if not failed:
         thms, bad, audit_log = audit(prop_mods, pid)
     gate = grep_gate(deps)
+    # thorough tier: the compiled .olean files of the property's modules are re-checked by leanchecker (the toolchain's
+    # independent re-checker of the kernel's verdict: every declaration is replayed through the kernel from the file)
+    rechecked = []
+    if tier == "thorough" and not failed:
+        for m in prop_mods:
+            if not os.path.exists(module_file(m)):
+                continue
+            rc, o = run(["lake", "env", "leanchecker", m], cwd=LEAN, timeout=1800)
+            rechecked.append({"module": m, "ok": rc == 0})
+            if rc != 0:
+                broken_obligations.append({"module": m, "errors": ["leanchecker: " + o[-1500:]], "theorems": []})
     obligations = len(thms) + len(broken_obligations) + 0
     discharged = len(thms) - len(bad)
     for bo in broken_obligations:
@@ -485,6 +496,7 @@ def main():
             "obligations": max(obligations, 0),
             "discharged": max(discharged, 0),
             "checker_cmd": "cd lean && lake build Gonuts driver && lake env lean <generated Audit: Lean.collectAxioms on every theorem of %s>" % ", ".join(prop_mods),
+            "leanchecker": rechecked,
             "trusted_base": P.get("trusted_base", []) + [
                 "Lean 4 kernel; axioms allowed: propext, Classical.choice, Quot.sound",
                 "fact extractor /verif/extract (go/ast, data only)",
